@@ -158,3 +158,64 @@ func VerifC14dChatty(others int) {
 	cancel()
 	verifrt.Reach("done")
 }
+
+// VerifC14eBurst: max+extra clients connect at the same moment and their SSH
+// handshakes take a second each (slow links, a connection storm after a
+// network partition heals): never more than MaxConnections of them are served
+// at once, the reported number equals the number open, and when all have gone
+// the count is 0 and a new client is served.
+func VerifC14eBurst(max, extra int) {
+	dlog.VerifInstall(source.Server)
+	config.Server.MaxConnections = max
+	config.Server.Schedule, config.Server.Continuous = nil, nil
+	config.Server.Permissions = config.Permissions{Default: []string{"^/.*$"}}
+	c14Authenticated = map[int]bool{}
+	s := &Server{catLimiter: make(chan struct{}, 2), tailLimiter: make(chan struct{}, 2), sshServerConfig: &gossh.ServerConfig{}}
+	ctx, cancel := context.WithCancel(context.Background())
+	l := &c14Listener{incoming: make(chan net.Conn)}
+	go s.listenerLoop(ctx, l)
+	mk := func(id, kind int) *c14Conn {
+		return &c14Conn{id: id, kind: kind, closed: make(chan struct{}), chans: make(chan gossh.NewChannel, c14ChanSize),
+			global: make(chan *gossh.Request, c14ChanSize), waitDone: make(chan struct{}), handshake: time.Second}
+	}
+	var conns []*c14Conn
+	for i := 0; i < max+extra; i++ {
+		kind := c14OneShell
+		if i == 0 && verifrt.Bool("first-fails-authentication") {
+			kind = c14AuthFails
+		}
+		c := mk(i, kind)
+		conns = append(conns, c)
+		l.incoming <- c // back to back: nobody waits for the handshake of the one before
+	}
+	verifrt.Sleep(3 * time.Second)
+	open := 0
+	for _, c := range conns {
+		if c14Authenticated[c.id] {
+			open++
+			c14Drive(c)
+		}
+	}
+	verifrt.Sleep(time.Second)
+	verifrt.Assert(open <= max, "more than MaxConnections connections are served at once")
+	verifrt.Assert(s.stats.currentConnections == open, "the reported number of open connections differs from the number actually open")
+	for _, c := range conns {
+		if c14Authenticated[c.id] {
+			c.Close()
+		}
+	}
+	verifrt.Sleep(5 * time.Second)
+	verifrt.Assert(s.stats.currentConnections == 0, "slots are still taken (or the count is negative) after all connections ended")
+	next := mk(max+extra, c14OneShell)
+	next.handshake = 0
+	l.incoming <- next
+	verifrt.Sleep(time.Second)
+	verifrt.Assert(c14Authenticated[next.id], "a connection is refused although no connection is open")
+	c14Drive(next)
+	verifrt.Sleep(time.Second)
+	verifrt.Assert(s.stats.currentConnections == 1, "the reported number of open connections differs from the number actually open")
+	next.Close()
+	verifrt.Sleep(3 * time.Second)
+	cancel()
+	verifrt.Reach("done")
+}
